@@ -8,7 +8,10 @@ COMMON_FLAGS = {
     "asan": ["-std=gnu++17", "-O1", "-g", "-fsanitize=address", "-fno-omit-frame-pointer", "-w"],
     "tsan": ["-std=gnu++17", "-O1", "-g", "-fsanitize=thread", "-w"],
 }
-COMMON_VARIANT = {"sem": "plain", "semp": "plain", "asan": "asan", "tsan": "tsan"}
+COMMON_VARIANT = {"sem": "plain", "semp": "plain", "semv2": "plain", "asan": "asan", "tsan": "tsan"}
+# builds of the "portable" lane (C08, C10), used by the extra shards in turn: generic x86-64 (no SSE4.2, no BMI2: the generic branches of the
+# vendored sdsl) and x86-64-v2 (SSE4.2 without BMI2: the popcount-based select)
+PORTABLE_VARIANTS = ["semp", "semv2"]
 
 
 def flags_for(variant, repo, spec):
@@ -17,6 +20,8 @@ def flags_for(variant, repo, spec):
         return BASE + ["-O2", "-fopenmp"] + inc
     if variant == "semp":  # "portable" lane: generic x86-64 (no SSE4.2 / BMI2 / AVX2), i.e. the fallback branches of the vendored sdsl
         return [f for f in BASE if f != "-march=native"] + ["-O2", "-fopenmp"] + inc
+    if variant == "semv2":
+        return [f for f in BASE if f != "-march=native"] + ["-march=x86-64-v2", "-O2", "-fopenmp"] + inc
     if variant == "asan":
         return BASE + ["-O1", "-g", "-fopenmp", "-fsanitize=address", "-fno-omit-frame-pointer"] + inc
     if variant == "tsan":  # no OpenMP: libgomp is not TSan-instrumented
@@ -25,7 +30,7 @@ def flags_for(variant, repo, spec):
 
 
 def link_flags(variant, spec):
-    if variant in ("sem", "semp"):
+    if variant in ("sem", "semp", "semv2"):
         return ["-fopenmp"]
     if variant == "asan":
         return ["-fopenmp", "-fsanitize=address"]
@@ -90,11 +95,11 @@ CHECKS = {
             "quick": {"shards": 8, "cases": 4000}, "thorough": {"shards": 16, "cases": 120000}},
     "C04": {"engine": "e_seg",
             "quick": {"shards": 8, "cases": 2500}, "thorough": {"shards": 16, "cases": 60000}},
-    "C08": {"engine": "e_variants", "portable_shards": {"quick": 3, "thorough": 6},
+    "C08": {"engine": "e_variants", "portable_shards": {"quick": 4, "thorough": 8},
             "quick": {"shards": 8, "cases": 3000}, "thorough": {"shards": 16, "cases": 100000}},
     "C09": {"engine": "e_variants",
             "quick": {"shards": 8, "cases": 3000}, "thorough": {"shards": 16, "cases": 100000}},
-    "C10": {"engine": "e_variants", "portable_shards": {"quick": 3, "thorough": 6}, "fuzz": [{"engine": "e_variants", "prop": "C10", "seconds": 300, "jobs": 6}],
+    "C10": {"engine": "e_variants", "portable_shards": {"quick": 4, "thorough": 8}, "fuzz": [{"engine": "e_variants", "prop": "C10", "seconds": 300, "jobs": 6}],
             "quick": {"shards": 8, "cases": 3000}, "thorough": {"shards": 16, "cases": 100000}},
     "C11": {"engine": "e_mapped",
             "quick": {"shards": 8, "cases": 2000}, "thorough": {"shards": 16, "cases": 40000}},
